@@ -126,6 +126,15 @@ CLAIMS = {
             "enumerated completely in both tiers, plus a skewed big/small family where the bound binds.",
             "Oracle = DP over (cardinality, sum) states validated against 2^n brute force at start; no time limit.",
             "DESIGN.md 6/C12"),
+    "C15": ("exploration", "property-based testing: deep argument snapshots, repeated calls, and model-based call histories compared with references computed in pristine forked interpreters",
+            "(i)+(ii) every algorithm on generated inputs in every presentation, incl. refused calls: a deep snapshot of the argument (element "
+            "types and reprs, array bytes / dtype / flags, dict items in order, the value table) must be unchanged after the call, and the call "
+            "repeated on the same object and on an equal fresh object must give the identical result. (iii) generated histories of 3-9 calls "
+            "over a pool of shared input objects, incl. repeated and refused calls: the whole history runs in a child fork()ed from a fresh "
+            "interpreter that has imported prtpy and never called it, each call also runs alone in its own such child, and every result in "
+            "the history must equal its reference.",
+            "Reference state = post-import state of a brand-new interpreter reached by fork(); results compared after normalisation, bin order and in-bin order included.",
+            "DESIGN.md 6/C15"),
     "C16": ("exploration", "model-based testing of operation histories (Hypothesis rule-based state machine with native sequence shrinking + histories generated as data + bounded-exhaustive sequences) against a list-of-(sum, items) model",
             "Histories of new / add (indices -n..n-1, zero-valued items) / copy / sort / add-empty / remove / concatenate / combine over a pool of "
             "up to six live bins-arrays, for both managers, respecting the hand-over discipline of the statement. After every step every live "
